@@ -927,9 +927,21 @@ func (x *Exec) frame(i int) qframe.QFrame {
 }
 
 func (x *Exec) runStep(sc *Scenario, st *Step) {
+	if st.Op == "Concurrent" {
+		x.runConcurrent(sc, st)
+		return
+	}
 	nF, nG, nV := len(x.frames), len(x.groupers), len(x.views)
+	ev := x.runOne(sc, st)
+	x.finishEvent(ev, nF, nG, nV)
+	x.emit(ev)
+}
+
+// runOne executes one operation under recover and returns its event (without re-observations).
+func (x *Exec) runOne(sc *Scenario, st *Step) Ev {
+	nF := len(x.frames)
 	ev := Ev{"scn": x.scn, "prop": sc.Prop, "i": x.step, "op": st.Op, "recv": st.Recv, "out": -1, "pan": 0,
-		"obs": emptyObs, "dig": 0, "a": Ev{"_": 0}}
+		"obs": emptyObs, "dig": 0, "a": Ev{"_": 0}, "race": 0, "conc": 0}
 	calls0 := atomic.LoadInt64(&callCount)
 	func() {
 		defer func() {
@@ -950,6 +962,10 @@ func (x *Exec) runStep(sc *Scenario, st *Step) {
 		}()
 		x.dispatch(st, ev)
 	}()
+	return ev
+}
+
+func (x *Exec) finishEvent(ev Ev, nF, nG, nV int) {
 	ev["reobs"], ev["greobs"] = x.reobserve(nF, nG)
 	vre := [][]int{}
 	for i := 0; i < nV; i++ {
@@ -961,7 +977,6 @@ func (x *Exec) runStep(sc *Scenario, st *Step) {
 		vre = append(vre, []int{i, d})
 	}
 	ev["vreobs"] = vre
-	x.emit(ev)
 }
 
 var frameOps = map[string]bool{"New": true, "Filter": true, "Sort": true, "Distinct": true, "Select": true, "Drop": true,
